@@ -73,6 +73,11 @@ package termincommittee
 //@ iface interfaces.Storage.StorePreprepare
 //@   requires [O8.1.wellformed] ppm != nil && ppm.content != nil
 //@   requires [O8.1.height] ppm.content.SignedHeader().BlockHeight() == caller.State.height
+//@   requires [O8.1.verified] Signed(caller, ppm.content.SignedHeader(), ppm.content.Sender())
+//@   requires [O8.1.signed-type] ppm.content.SignedHeader().MessageType() == protocol.LEAN_HELIX_PREPREPARE
+//@   requires [O8.1.from-leader] ppm.content.Sender().MemberId() == LeaderOf(caller.committeeMembers, ppm.content.SignedHeader().View())
+//@   requires [O8.1.current-view] ppm.content.SignedHeader().View() == caller.State.view
+//@   requires [O4.1.block-satisfies-hash] Commits(caller.blockUtils, ppm.content.SignedHeader().BlockHeight(), ppm.block, ppm.content.SignedHeader().BlockHash())
 //@   modifies ghost:ppStored, ghost:ppHash
 //@   ensures ppStored[ppm.content.SignedHeader().View()]
 //@   ensures old(ppStored[ppm.content.SignedHeader().View()]) ==> ppHash[ppm.content.SignedHeader().View()] == old(ppHash[ppm.content.SignedHeader().View()])
@@ -181,3 +186,165 @@ package termincommittee
 //@   ensures forall ov int :: ppStored[ov] == old(ppStored[ov]) && ppHash[ov] == old(ppHash[ov])
 //@   loop range commits
 //@     invariant true
+
+// ---------------- proposals (C04 C07 C08 C10) ----------------
+
+// what an adopted proposal satisfies: authentic, from the leader of its view, for this height, and its block
+// satisfies the hash in its signed header (external validity is delegated to the consumer: A-SPI)
+//@ pred ProposalOK(tic *TermInCommittee, ppm *interfaces.PreprepareMessage) = ppm != nil && ppm.content != nil
+//@   | && Signed(tic, ppm.content.SignedHeader(), ppm.content.Sender())
+//@   | && ppm.content.Sender().MemberId() == LeaderOf(tic.committeeMembers, ppm.content.SignedHeader().View())
+//@   | && ppm.content.SignedHeader().BlockHeight() == tic.State.height
+//@   | && Commits(tic.blockUtils, ppm.content.SignedHeader().BlockHeight(), ppm.block, ppm.content.SignedHeader().BlockHash())
+
+//@ iface interfaces.BlockUtils.ValidateBlockProposal
+//@   ensures result == nil ==> Commits(self, blockHeight, block, blockHash)
+
+//@ iface interfaces.BlockUtils.RequestNewBlockProposal
+//@   ensures Commits(self, blockHeight, result0, result1)
+
+//@ func (*TermInCommittee).validatePreprepare
+//@   props C07 C08 C10
+//@   requires TicOK(tic) && ppm != nil && ppm.content != nil && ppm.content.SignedHeader().BlockHeight() == tic.State.height
+//@   ensures [sound.not-yet-stored] result == nil ==> !ppStored[ppm.content.SignedHeader().View()]
+//@   ensures [sound.signed] result == nil ==> Signed(tic, ppm.content.SignedHeader(), ppm.content.Sender())
+//@   ensures [sound.from-leader] result == nil ==> ppm.content.Sender().MemberId() == LeaderOf(tic.committeeMembers, ppm.content.SignedHeader().View())
+
+//@ func (*TermInCommittee).processPreprepare
+//@   props C04 C07 C08 C10
+//@   requires TicOK(tic)
+//@   inv GhostInv(tic)
+//@   requires [adopt.authentic-proposal] ProposalOK(tic, ppm)
+//@   requires [adopt.first-for-view] !ppStored[ppm.content.SignedHeader().View()]
+//@   requires [adopt.not-my-own] ppm.content.Sender().MemberId() != tic.myMemberId
+//@   modifies @TIC
+
+//@ func (*TermInCommittee).HandlePrePrepare
+//@   props C04 C07 C08 C10
+//@   requires TicOK(tic)
+//@   inv GhostInv(tic)
+//@   requires [FilterOK] ppm != nil && ppm.content != nil && ppm.content.SignedHeader().BlockHeight() == tic.State.height && ppm.content.Sender().MemberId() != tic.myMemberId
+//@   modifies @TIC
+//@   assert before call processPreprepare [O7.5.standalone-proposal-only-in-view-0] ppm.content.SignedHeader().View() == 0
+
+// ---------------- NEW_VIEW (C07) ----------------
+
+//@ func (*TermInCommittee).validateViewChangeVotes
+//@   props C07 C08
+//@   requires TicOK(tic)
+//@   requires forall k :: 0 <= k && k < len(confirmations) ==> confirmations[k] != nil
+//@   ensures [sound.quorum] result == nil ==> (exists ids []primitives.MemberId :: len(ids) == len(confirmations) && (forall k :: 0 <= k && k < len(confirmations) ==> ids[k] == confirmations[k].Sender().MemberId())
+//@     | && SW(ids, tic.committeeMembers, len(tic.committeeMembers)) >= Qz(SumMW(tic.committeeMembers, len(tic.committeeMembers))))
+//@   ensures [sound.height] result == nil ==> (forall k :: 0 <= k && k < len(confirmations) ==> confirmations[k].SignedHeader().BlockHeight() == targetBlockHeight)
+//@   ensures [sound.view] result == nil ==> (forall k :: 0 <= k && k < len(confirmations) ==> confirmations[k].SignedHeader().View() == targetView)
+//@   ensures [sound.distinct] result == nil ==> (forall j, k :: 0 <= j && j < k && k < len(confirmations) ==> confirmations[j].Sender().MemberId() != confirmations[k].Sender().MemberId())
+//@   loop range confirmations
+//@     invariant [senders] len(senders) == len(confirmations) && (forall k :: 0 <= k && k < $i ==> senders[k] == confirmations[k].Sender().MemberId())
+//@   loop range confirmations
+//@     invariant [set] set != nil && (forall x Str :: set[x] == (exists k :: 0 <= k && k < $i && content(confirmations[k].Sender().MemberId()) == x))
+//@     invariant [height] forall k :: 0 <= k && k < $i ==> confirmations[k].SignedHeader().BlockHeight() == targetBlockHeight
+//@     invariant [view] forall k :: 0 <= k && k < $i ==> confirmations[k].SignedHeader().View() == targetView
+//@     invariant [distinct] forall j, k :: 0 <= j && j < k && k < $i ==> confirmations[j].Sender().MemberId() != confirmations[k].Sender().MemberId()
+
+// a vote (VIEW_CHANGE content) is authentic and its prepared proof, if any, is valid for (height, its view)
+//@ pred ProofOK(tic *TermInCommittee, p *protocol.PreparedProof, h primitives.BlockHeight, v primitives.View) = (p == nil || len(p.Raw()) == 0) ||
+//@   | (p.PreprepareBlockRef().BlockHeight() == h && p.PrepareBlockRef().BlockHeight() == h
+//@   | && p.PreprepareBlockRef().View() < v && p.PrepareBlockRef().View() == p.PreprepareBlockRef().View()
+//@   | && p.PrepareBlockRef().BlockHash() == p.PreprepareBlockRef().BlockHash()
+//@   | && VerifiedMsg(tic.keyManager, p.PreprepareBlockRef().BlockHeight(), p.PreprepareBlockRef().Raw(), p.PreprepareSender().MemberId(), p.PreprepareSender().Signature())
+//@   | && p.PreprepareSender().MemberId() == LeaderOf(tic.committeeMembers, p.PreprepareBlockRef().View())
+//@   | && (forall pk :: 0 <= pk && pk < seq_len(p, "PrepareSenders") ==>
+//@   |      VerifiedMsg(tic.keyManager, p.PrepareBlockRef().BlockHeight(), p.PrepareBlockRef().Raw(), seq_at(p, "PrepareSenders", pk).MemberId(), seq_at(p, "PrepareSenders", pk).Signature())
+//@   |      && seq_at(p, "PrepareSenders", pk).MemberId() != p.PreprepareSender().MemberId()
+//@   |      && IsMember(tic.committeeMembers, seq_at(p, "PrepareSenders", pk).MemberId()))
+//@   | && (forall pj, pk :: 0 <= pj && pj < pk && pk < seq_len(p, "PrepareSenders") ==> seq_at(p, "PrepareSenders", pj).MemberId() != seq_at(p, "PrepareSenders", pk).MemberId()))
+
+// the closure handed to ValidatePreparedProof computes the leader of the term's committee (discharges the assumed
+// contract of the calcLeaderId parameter)
+//@ func (*TermInCommittee).isViewChangeValid$1
+//@   props C07 C08
+//@   requires len(tic.committeeMembers) >= 1
+//@   ensures [leader-of-term-committee] result == LeaderOf(tic.committeeMembers, view)
+
+//@ func (*TermInCommittee).isViewChangeValid
+//@   props C07 C08 C09
+//@   requires TicOK(tic) && vcm != nil
+//@   ensures [sound.signed] result == nil ==> VerifiedMsg(tic.keyManager, vcm.SignedHeader().BlockHeight(), vcm.SignedHeader().Raw(), vcm.Sender().MemberId(), vcm.Sender().Signature())
+//@   ensures [sound.proof] result == nil ==> ProofOK(tic, vcm.SignedHeader().PreparedProof(), tic.State.height, vcm.SignedHeader().View())
+//@   assert before call ValidatePreparedProof [committee-argument-is-term-committee] $committeeMembers == tic.committeeMembers && $keyManager == tic.keyManager
+
+// A-SORT + body: trusted until the sort.Slice ordering model lands (the comparator is read, not verified)
+//@ func (*TermInCommittee).latestViewChangeVote
+//@   trusted
+//@   ensures [none-has-proof] result == nil ==> (forall k :: 0 <= k && k < len(confirmations) ==> confirmations[k].SignedHeader().PreparedProof() == nil || len(confirmations[k].SignedHeader().PreparedProof().Raw()) == 0)
+//@   ensures [is-a-vote-with-proof] result != nil ==> (exists k :: 0 <= k && k < len(confirmations) && confirmations[k] == result) && result.SignedHeader().PreparedProof() != nil && len(result.SignedHeader().PreparedProof().Raw()) > 0
+//@   ensures [highest-proof-view] result != nil ==> (forall k :: 0 <= k && k < len(confirmations) && confirmations[k].SignedHeader().PreparedProof() != nil && len(confirmations[k].SignedHeader().PreparedProof().Raw()) > 0
+//@     | ==> confirmations[k].SignedHeader().PreparedProof().PreprepareBlockRef().View() <= result.SignedHeader().PreparedProof().PreprepareBlockRef().View())
+
+//@ func (*TermInCommittee).initView
+//@   props C07 C10 C13 C19
+//@   requires TicOK(tic)
+//@   modifies state.State.view
+//@   ensures [ok] result1 == nil ==> tic.State.view == newView && newView >= old(tic.State.view) && result0 != nil && result0.view == newView && result0.height == tic.State.height
+//@   ensures [fail] result1 != nil ==> tic.State.view == old(tic.State.view)
+//@   ensures [frame] tic.State.height == old(tic.State.height) && tic.State == old(tic.State)
+
+//@ func (*TermInCommittee).HandleNewView
+//@   props C04 C07 C08 C10
+//@   requires TicOK(tic)
+//@   inv GhostInv(tic)
+//@   requires [FilterOK] nvm != nil && nvm.content != nil && nvm.content.SignedHeader().BlockHeight() == tic.State.height && nvm.content.Sender().MemberId() != tic.myMemberId
+//@   modifies @TIC
+//@   loop iter viewChangeConfirmationsIter
+//@     invariant [src] iter_src(viewChangeConfirmationsIter) == nvmHeader && nvmHeader == nvm.content.SignedHeader()
+//@     invariant [pos] iter_pos(viewChangeConfirmationsIter) == len(viewChangeConfirmations) && iter_pos(viewChangeConfirmationsIter) <= seq_len(nvmHeader, "ViewChangeConfirmations")
+//@     invariant [elems] forall k :: 0 <= k && k < len(viewChangeConfirmations) ==> viewChangeConfirmations[k] == seq_at(nvmHeader, "ViewChangeConfirmations", k) && viewChangeConfirmations[k] != nil
+//@     invariant [frame] tic.State.view == old(tic.State.view) && tic.State.height == old(tic.State.height) && (forall gv int :: ppStored[gv] == old(ppStored[gv]) && ppHash[gv] == old(ppHash[gv]) && sentPrepare[gv] == old(sentPrepare[gv]) && sentCommit[gv] == old(sentCommit[gv]) && sentPrepareHash[gv] == old(sentPrepareHash[gv]) && sentCommitHash[gv] == old(sentCommitHash[gv])) && ncommitted == old(ncommitted) && tic.committedBlock == old(tic.committedBlock)
+//@   assert before call initView [O7.3.signed-by-leader-of-view] Signed(tic, nvmHeader, nvmSender) && nvmSender.MemberId() == LeaderOf(tic.committeeMembers, nvmHeader.View())
+//@   assert before call initView [O7.3.all-votes-read] len(viewChangeConfirmations) == seq_len(nvmHeader, "ViewChangeConfirmations")
+//@   assert before call initView [O7.3.votes-for-this-height-and-view] forall k :: 0 <= k && k < len(viewChangeConfirmations) ==> viewChangeConfirmations[k].SignedHeader().BlockHeight() == tic.State.height && viewChangeConfirmations[k].SignedHeader().View() == nvmHeader.View()
+//@   assert before call initView [O7.3.votes-from-distinct-senders] forall j, k :: 0 <= j && j < k && k < len(viewChangeConfirmations) ==> viewChangeConfirmations[j].Sender().MemberId() != viewChangeConfirmations[k].Sender().MemberId()
+//@   assert before call initView [O7.3.votes-reach-quorum] exists ids []primitives.MemberId :: len(ids) == len(viewChangeConfirmations) && (forall k :: 0 <= k && k < len(viewChangeConfirmations) ==> ids[k] == viewChangeConfirmations[k].Sender().MemberId())
+//@     | && SW(ids, tic.committeeMembers, len(tic.committeeMembers)) >= Qz(SumMW(tic.committeeMembers, len(tic.committeeMembers)))
+//@   assert before call initView [O7.3.every-vote-signed] forall k :: 0 <= k && k < len(viewChangeConfirmations) ==>
+//@     | VerifiedMsg(tic.keyManager, viewChangeConfirmations[k].SignedHeader().BlockHeight(), viewChangeConfirmations[k].SignedHeader().Raw(), viewChangeConfirmations[k].Sender().MemberId(), viewChangeConfirmations[k].Sender().Signature())
+//@   assert before call initView [O7.4.proposal-for-this-view] ppm.content.SignedHeader().View() == nvmHeader.View() && ppm.content.SignedHeader().BlockHeight() == tic.State.height
+//@   assert before call initView [O7.4.locked-block-is-reproposed] latestVote != nil ==> ProofOK(tic, latestVote.SignedHeader().PreparedProof(), tic.State.height, nvmHeader.View())
+//@     | && ppm.content.SignedHeader().BlockHash() == latestVote.SignedHeader().PreparedProof().PreprepareBlockRef().BlockHash()
+//@   assert before call initView [O7.4.fresh-block-was-validated] latestVote == nil ==> Commits(tic.blockUtils, tic.State.height, ppm.block, ppm.content.SignedHeader().BlockHash())
+
+// ---------------- VIEW_CHANGE, election (C07 C08 C09 C10) ----------------
+
+// what every vote in the log satisfies (C08 O8.4): authentic, typed, from a member, carrying a valid proof for its
+// (height, view); a proof comes with the block it certifies
+//@ pred VoteOK(tic *TermInCommittee, vcm *interfaces.ViewChangeMessage) = vcm != nil && vcm.content != nil
+//@   | && VerifiedMsg(tic.keyManager, vcm.content.SignedHeader().BlockHeight(), vcm.content.SignedHeader().Raw(), vcm.content.Sender().MemberId(), vcm.content.Sender().Signature())
+//@   | && IsMember(tic.committeeMembers, vcm.content.Sender().MemberId())
+//@   | && ProofOK(tic, vcm.content.SignedHeader().PreparedProof(), vcm.content.SignedHeader().BlockHeight(), vcm.content.SignedHeader().View())
+//@   | && (vcm.content.SignedHeader().PreparedProof() != nil && len(vcm.content.SignedHeader().PreparedProof().Raw()) > 0 ==>
+//@   |      vcm.block != nil && Commits(tic.blockUtils, vcm.content.SignedHeader().BlockHeight(), vcm.block, vcm.content.SignedHeader().PreparedProof().PreprepareBlockRef().BlockHash()))
+
+//@ iface interfaces.Storage.StoreViewChange
+//@   requires [O8.4.verified] vcm != nil && vcm.content != nil && VerifiedMsg(caller.keyManager, vcm.content.SignedHeader().BlockHeight(), vcm.content.SignedHeader().Raw(), vcm.content.Sender().MemberId(), vcm.content.Sender().Signature())
+//@   requires [O8.4.signed-type] vcm.content.SignedHeader().MessageType() == protocol.LEAN_HELIX_VIEW_CHANGE
+//@   requires [O8.4.member] IsMember(caller.committeeMembers, vcm.content.Sender().MemberId())
+//@   requires [O8.4.addressed-to-me-as-leader] caller.myMemberId == LeaderOf(caller.committeeMembers, vcm.content.SignedHeader().View())
+//@   requires [O8.4.height] vcm.content.SignedHeader().BlockHeight() == caller.State.height
+//@   requires [O8.4.not-stale] vcm.content.SignedHeader().View() >= caller.State.view
+//@   requires [O8.4.valid-proof] ProofOK(caller, vcm.content.SignedHeader().PreparedProof(), vcm.content.SignedHeader().BlockHeight(), vcm.content.SignedHeader().View())
+//@   requires [O8.4.proof-comes-with-its-block] vcm.content.SignedHeader().PreparedProof() != nil && len(vcm.content.SignedHeader().PreparedProof().Raw()) > 0 ==>
+//@     | vcm.block != nil && Commits(caller.blockUtils, vcm.content.SignedHeader().BlockHeight(), vcm.block, vcm.content.SignedHeader().PreparedProof().PreprepareBlockRef().BlockHash())
+//@   modifies ghost:vcver
+//@   ensures vcver == old(vcver) + 1
+
+//@ iface interfaces.Storage.GetViewChangeMessages
+//@   ensures result0 == VCMsgs(self, vcver, blockHeight, view)
+//@   ensures forall i :: 0 <= i && i < len(result0) ==> VoteOK(caller, result0[i]) && result0[i].content.SignedHeader().BlockHeight() == blockHeight && result0[i].content.SignedHeader().View() == view
+//@   ensures forall i, j :: 0 <= i && i < j && j < len(result0) ==> result0[i].content.Sender().MemberId() != result0[j].content.Sender().MemberId()
+
+//@ func (*TermInCommittee).HandleViewChange
+//@   props C08 C09 C07 C10
+//@   requires TicOK(tic)
+//@   inv GhostInv(tic)
+//@   requires [FilterOK] vcm != nil && vcm.content != nil && vcm.content.SignedHeader().BlockHeight() == tic.State.height && vcm.content.Sender().MemberId() != tic.myMemberId
+//@   modifies @TIC
